@@ -42,7 +42,9 @@ def main():
     patch = f"{out}/patch.diff"
     files = re.findall(r"^\+\+\+ b/(\S+)", open(patch).read(), re.M)
     crates = sorted({f.split("/")[0] for f in files})
-    env = "CARGO_NET_OFFLINE=true CARGO_TARGET_DIR=/tmp/seed/target"
+    # a private target dir per worktree: different worktrees of one workspace produce identically named
+    # artifacts, so a shared target dir can silently link another worktree's build
+    env = f"CARGO_NET_OFFLINE=true CARGO_TARGET_DIR={wt}/target"
     confirmed = {}
     if not skip_confirm:
         touch = " ".join(files)
@@ -57,6 +59,7 @@ def main():
         if "cargo" not in demo_cmd:
             print("meta.json has no usable demo_cmd")
             sys.exit(2)
+        demo_cmd = re.sub(r"CARGO_TARGET_DIR=\S+", f"CARGO_TARGET_DIR={wt}/target", demo_cmd)
         if "CARGO_TARGET_DIR" not in demo_cmd:
             demo_cmd = env + " " + demo_cmd
         sh(f"touch {touch}", cwd=wt)
